@@ -240,8 +240,9 @@ package bbolt
 //@   requires !tx.managed
 //@   requires tx.db != nil && tx.writable ==> tx.db.rwlock.held && tx.meta != nil && tx.db.freelist != nil
 //@   requires tx.db != nil && !tx.writable ==> tx.db.mmaplock.rcount >= 1 && tx.meta != nil && !tx.db.metalock.held
-//@   ensures [closedtx] old(tx.db) == nil ==> result == berrors.ErrTxClosed
-//@   ensures [ok] old(tx.db) != nil ==> result == nil && tx.db == nil
+//@   ensures [closedtx] old(tx.db) == nil ==> result == berrors.ErrTxClosed && (forall m *sync.Mutex :: m.held == old(m.held)) && (forall m *sync.RWMutex :: m.rcount == old(m.rcount))
+//@   ensures [ok] old(tx.db) != nil ==> result == nil
+//@   ensures [closed] tx.db == nil
 //@   ensures [unlocked] old(tx.db) != nil && old(tx.writable) ==> !old(tx.db).rwlock.held && old(tx.db).rwtx == nil
 
 //@ func (*Tx).writeMeta
@@ -297,6 +298,8 @@ package bbolt
 //@   requires tx.db != nil && tx.writable ==> (tx.meta.pgid + 1) * tx.db.pageSize <= tx.db.datasz && tx.db.datasz <= common.MaxMapSize
 //@   requires tx.db != nil && tx.writable && !tx.db.NoSync ==> unsynced == 0
 //@   panics when tx.db != nil && tx.writable && tx.db.StrictMode
+//@   callback ensures tx.db == nil
+//@   ensures [closedfield] old(tx.db) != nil && old(tx.writable) ==> tx.db == nil
 //@   skip writeMeta.panics0 because root page and freelist page below the high-water mark is a tree/allocator invariant (A-tree, A-cow): not derivable from the contracts in reach
 //@   ensures [closedtx] old(tx.db) == nil ==> err == berrors.ErrTxClosed
 //@   ensures [readonly] old(tx.db) != nil && !old(tx.writable) ==> err == berrors.ErrTxNotWritable
@@ -356,7 +359,7 @@ package bbolt
 //@   requires t.db != nil && !t.writable ==> t.db.mmaplock.rcount >= 1 && t.meta != nil && !t.db.metalock.held
 //@   ensures [rollback] old(t.db) != nil ==> calls("(*Tx).rollback", t) == old(calls("(*Tx).rollback", t)) + 1 && t.db == nil
 //@   ensures [unlocked] old(t.db) != nil && old(t.writable) ==> !old(t.db).rwlock.held
-//@   ensures [noop] old(t.db) == nil ==> calls("(*Tx).rollback", t) == old(calls("(*Tx).rollback", t))
+//@   ensures [noop] old(t.db) == nil ==> calls("(*Tx).rollback", t) == old(calls("(*Tx).rollback", t)) && t.db == nil && (forall m *sync.Mutex :: m.held == old(m.held)) && (forall m *sync.RWMutex :: m.rcount == old(m.rcount))
 
 //@ func (*DB).View$1
 //@   props C03 C02
@@ -364,12 +367,12 @@ package bbolt
 //@   requires t.db != nil && t.writable ==> t.db.rwlock.held && t.meta != nil && t.db.freelist != nil && mapok(t)
 //@   requires t.db != nil && !t.writable ==> t.db.mmaplock.rcount >= 1 && t.meta != nil && !t.db.metalock.held
 //@   ensures [rollback] old(t.db) != nil ==> calls("(*Tx).rollback", t) == old(calls("(*Tx).rollback", t)) + 1 && t.db == nil
-//@   ensures [noop] old(t.db) == nil ==> calls("(*Tx).rollback", t) == old(calls("(*Tx).rollback", t))
+//@   ensures [noop] old(t.db) == nil ==> calls("(*Tx).rollback", t) == old(calls("(*Tx).rollback", t)) && t.db == nil && (forall m *sync.Mutex :: m.held == old(m.held)) && (forall m *sync.RWMutex :: m.rcount == old(m.rcount))
 
 //@ func (*DB).Update
 //@   props C03 C08 C16
 //@   requires canbegin(db)
 //@   callback ensures t.db == db && t.writable && t.meta != nil && t.root.tx == t && db.rwtx == t && db.freelist != nil && mapok(t) && !db.metalock.held
-//@   callback ensures db.pageSize >= 512 && db.pageSize <= 16777216 && t.meta.magic == common.Magic && t.meta.version == common.Version && (t.meta.pgid + 8589934592) * db.pageSize <= 2305843009213693952 && db.AllocSize >= 0 && db.AllocSize <= 2305843009213693952 && db.datasz >= 0 && db.MaxSize >= 0 && (t.meta.pgid + 1) * db.pageSize <= db.datasz && db.datasz <= common.MaxMapSize && (db.NoSync || unsynced == 0) && !db.StrictMode
+//@   callback ensures db.pageSize >= 512 && db.pageSize <= 16777216 && t.meta.magic == common.Magic && t.meta.version == common.Version && (t.meta.pgid + 8589934592) * db.pageSize <= 2305843009213693952 && db.AllocSize >= 0 && db.AllocSize <= 2305843009213693952 && db.datasz >= 0 && db.MaxSize >= 0 && (t.meta.pgid + 1) * db.pageSize <= db.datasz && db.datasz <= common.MaxMapSize && (db.NoSync || unsynced == 0) && !db.StrictMode && db.readOnly == old(db.readOnly) && !t.managed == !t.managed
 //@   ensures [unlocked] !db.rwlock.held || db.readOnly
 //@   ensures [readonlydb] db.readOnly ==> result == berrors.ErrDatabaseReadOnly
